@@ -100,9 +100,10 @@ def make_envs(rng, regs, mems, k, regw=16, special=None):
 
 class ExprGen:
     def __init__(self, rng, widths=(1, 2, 4, 8), regs=("r1", "r2", "r3"), mems=("m1", "m2"),
-                 p_less=0.2, p_mem=0.12, p_wg=0.15, p_const=0.45, big_consts=True):
+                 p_less=0.2, p_mem=0.12, p_wg=0.15, p_const=0.45, big_consts=True, max_div_w=64):
         self.rng, self.widths, self.regnames, self.memnames = rng, list(widths), list(regs), list(mems)
         self.p_less, self.p_mem, self.p_wg, self.p_const = p_less, p_mem, p_wg, p_const
+        self.max_div_w = max_div_w   # the reference division is bit-serial: keep it off the widest operations
 
     def w(self):
         return self.rng.choice(self.widths)
@@ -134,4 +135,7 @@ class ExprGen:
             w = self.w()
             b = t.constn(r.choice([0, 1, 7, 8, 8 * w - 1, 8 * w, 8 * w + 1, 9, 15, 16, 33]) % 256, 1)
             return t.bin(op, a, b, w)
-        return t.bin(op, a, b, self.w())
+        w = self.w()
+        if op == 5 and w > self.max_div_w:
+            op = r.choice([1, 4, 6])
+        return t.bin(op, a, b, w)
